@@ -75,6 +75,11 @@ type Setup struct {
 // node that lost all in-memory state, not only on one that runs for ever. The other half stays fault-free.
 var bounceProps = map[string]bool{"C10": true, "C11": true, "C12": true, "C14": true, "C15": true, "C17": true, "C19": true, "C20": true}
 
+// checkNoiseProps: in a third of the runs of these checks the observed replica also serves mempool CheckTx calls
+// between its consensus calls (RefNoisePolicy). C17 is left out: its oracle photographs the deliver state at the
+// same scheduling points.
+var checkNoiseProps = map[string]bool{"C10": true, "C11": true, "C12": true, "C14": true, "C15": true, "C19": true, "C20": true}
+
 // BounceBetween kills and restarts the observed replica between two blocks with the given probability.
 func BounceBetween(prob float64) func(e *core.Engine, rng *rand.Rand, blockNo int) []*core.Step {
 	return func(e *core.Engine, rng *rand.Rand, blockNo int) []*core.Step {
@@ -153,6 +158,12 @@ func (p *ClusterProp) Run(seed uint64, tier string, tr *core.Trace) (out *RunOut
 		su = p.MakeSetup(rng, tier, seed)
 		if bounceProps[p.Id] && rng.Intn(2) == 0 {
 			su.Between = chainBetween(su.Between, BounceBetween(0.07))
+		}
+		if checkNoiseProps[p.Id] && su.Policy == nil && rng.Intn(3) == 0 {
+			if su.Sess == nil {
+				su.Sess = gen.NewSession()
+			}
+			su.Policy = &RefNoisePolicy{Rng: rng, Sess: su.Sess, CheckRate: 0.04}
 		}
 		tr = &core.Trace{Property: p.Id, Seed: seed, Knobs: su.Knobs, Replicas: su.Replicas, Extra: su.Extra}
 	}
